@@ -569,6 +569,8 @@ def _finish_cut(asm, c, text, hits, kv, secs, kind):
     for tk, lines_, no in secs:
         if tk[0] == 'replace':
             text = _apply_replace(text, tk, hits, no)
+        elif tk[0] == 'replace_chain':
+            text = _apply_replace_chain(text, tk, hits, no)
     for tk, lines_, no in secs:
         if tk[0] == 'bytelits':
             text = extract.r15_byte_literals(text, hits)
@@ -600,7 +602,7 @@ def _finish_cut(asm, c, text, hits, kv, secs, kind):
     fname = kv.get('rename', kv.get('name', kv.get('label', 'slice')))
     for tk, lines_, no in secs:
         t0 = tk[0]
-        if t0 in ('replace', 'desugar_for', 'opaque_unsafe', 'bytelits', 'desugar_while_let'):
+        if t0 in ('replace', 'replace_chain', 'desugar_for', 'opaque_unsafe', 'bytelits', 'desugar_while_let'):
             continue
         if t0 == 'mutate':
             mutations.append((tk[1], tk[2], no))
@@ -764,6 +766,47 @@ def _finish_cut(asm, c, text, hits, kv, secs, kind):
         for l, o in gen:
             asm.emit(l, ('negctl', nm, o))
         asm.negctl.append({'name': nm, 'of': fname, 'from': frm, 'to': to})
+
+
+def _apply_replace_chain(text, tk, hits, no):
+    """//@replace_chain "<prefix>" when="<whole chain>" then="<stand-in A>" else="<stand-in B>":
+    the method chain that starts with <prefix> (a code occurrence; the chain is extended over `.name(...)`, `.name::<..>(...)`
+    and `?` segments) is an expression Verus cannot take (iterator adapters with closures).  If its text is the expected one
+    (compared without whitespace) it is replaced by stand-in A, whose assumed contract is what that exact expression computes
+    (decided for the real expression by a Kani unit); otherwise by stand-in B, whose contract assumes only what any expression
+    of that type gives -- so a changed selection expression fails the caller's postcondition instead of losing an anchor."""
+    pos, kv = _kv(tk[1:])
+    prefix = pos[0]
+    m = mask(text)
+    a = code_find(text, m, prefix, 0)
+    if a < 0:
+        raise CutError('stand-in lost: chain prefix %r not found (template line %d)' % (prefix, no))
+    j = a + len(prefix)
+    n = len(text)
+    while True:
+        k = j
+        while k < n and text[k].isspace():
+            k += 1
+        if k < n and text[k] == '?':
+            j = k + 1
+            continue
+        if k < n and text[k] == '.' and m[k] == CODE:
+            mm = re.match(r'\.\s*[A-Za-z_][A-Za-z0-9_]*\s*(::\s*<[^>]*>\s*)?', text[k:])
+            if not mm:
+                break
+            q = k + mm.end()
+            if q < n and text[q] == '(':
+                j = match_close(text, m, q) + 1
+                continue
+            # field access / tuple index
+            j = q
+            continue
+        break
+    chain = text[a:j]
+    same = ''.join(chain.split()) == ''.join(kv['when'].split())
+    text = _sub(text, a, j, kv['then'] if same else kv['else'])
+    hits['R9.chain:' + prefix[:40] + (':expected' if same else ':UNEXPECTED')] = 1
+    return text
 
 
 def _apply_replace(text, tk, hits, no):
